@@ -22,6 +22,7 @@ import (
 	wrapping "github.com/hashicorp/go-kms-wrapping/v2"
 	"github.com/hashicorp/go-kms-wrapping/v2/aead"
 	"github.com/hashicorp/nodeenrollment"
+	"github.com/hashicorp/nodeenrollment/protocol"
 	"github.com/hashicorp/nodeenrollment/registration"
 	"github.com/hashicorp/nodeenrollment/rotation"
 	"github.com/hashicorp/nodeenrollment/storage/inmem"
@@ -92,6 +93,8 @@ type Obs struct {
 	NotAuthErr  bool     `json:"notAuthorizedErr"`
 	CredsUnch   bool     `json:"credsUnchanged"`
 	SameKey     bool     `json:"sameKey"`
+	StallTried    bool `json:"stallTried"`    // an honest node dialed while the peer kept its handshake open
+	StallHonestOK bool `json:"stallHonestOK"` // ... and connected
 	Temporary   bool     `json:"allTemporary"`
 	Negotiated  string   `json:"negotiated"`
 }
@@ -889,6 +892,64 @@ func (r *run) malformed(op map[string]any, ln *Line) {
 		res := srv.AcceptOne(8 * time.Second)
 		r.record(ln, res)
 		<-done
+	case "stallSilent", "stallPartial", "stallAfterHello":
+		// a peer that opens a connection and then keeps the handshake open without completing it; while it
+		// does, an honest registered node dials.  The peer goes away after the hold.
+		const hold = 6500 * time.Millisecond
+		start := time.Now()
+		c, err := net.DialTimeout(network, srv.Addr, 2*time.Second)
+		if err != nil {
+			ln.Res = "harness-error"
+			ln.Err = err.Error()
+			return
+		}
+		switch cls {
+		case "stallPartial":
+			c.Write([]byte{0x16, 0x03, 0x01})
+		case "stallAfterHello":
+			// a well-formed hello (a valid credential-fetch request, or a plain application hello), so that the server
+			// answers with its flight and then waits for the client
+			protos := []string{"app-proto"}
+			if pfx == "fetch" {
+				protos, _ = nodetls.BreakIntoNextProtos(nodeenrollment.FetchNodeCredsNextProtoV1Prefix, r.validFetchB64(false))
+			}
+			c.Write(captureClientHello(protos))
+		}
+		honestOK := false
+		if n, ok := srv.Nodes["k1"]; ok && len(n.Creds.CertificateBundles) == 2 && srv.RecordPresent("k1") && n.Fresh {
+			ln.Obs.StallTried = true
+			time.Sleep(300 * time.Millisecond)
+			ctx, cancel := context.WithTimeout(context.Background(), 2500*time.Millisecond)
+			hc, derr := protocol.Dial(ctx, n.Storage, srv.Addr)
+			cancel()
+			if derr == nil {
+				honestOK = true
+				hc.Close()
+			}
+		}
+		ln.Obs.StallHonestOK = honestOK
+		if d := hold - time.Since(start); d > 0 {
+			time.Sleep(d)
+		}
+		c.Close()
+		skipped := false
+		for {
+			res := srv.AcceptOne(1500 * time.Millisecond)
+			if res.Kind == "timeout" {
+				break
+			}
+			if res.Conn != nil {
+				res.Conn.Close()
+			}
+			if res.Kind == "auth" && honestOK && !skipped {
+				skipped = true // the honest node's own connection
+				continue
+			}
+			r.record(ln, res)
+		}
+		if len(ln.Obs.Kinds) == 0 {
+			r.record(ln, hs.AcceptResult{Kind: "timeout"})
+		}
 	case "nontls", "silentClose", "dropMidHello", "dropAfterHello", "resetMidHello", "resetAfterHello", "rawSslv2", "rawOversizeRecord", "rawHttp", "rawBadVersion":
 		c, err := net.DialTimeout(network, srv.Addr, 2*time.Second)
 		if err != nil {
